@@ -88,6 +88,10 @@ func runSndInBubble(t *testing.T, sc *SndScenario, ch sim.Chooser) []sim.Ev {
 	h := sim.NewFakeHost(self, []ma.Multiaddr{sim.DefaultAddr(0)})
 	h.Dial = func(ctx context.Context, p peer.ID) error { return nil }
 	gate := &sim.Gate{}
+	goCall := map[int]int{}      // goroutine id -> call index
+	callSeq := map[int]int{}     // call index -> sequence number of its start
+	lastDisc := map[int]int{}    // peer -> sequence number of the last disconnect notification
+	seq := 0
 	streams := []*sndStream{}
 	byFake := map[*sim.FakeStream]*sndStream{}
 	started := false
@@ -168,7 +172,10 @@ func runSndInBubble(t *testing.T, sc *SndScenario, ch sim.Chooser) []sim.Ev {
 		mu.Lock()
 		st.s = fs
 		byFake[fs] = st
-		add("StreamOpen", "p", pi, "sid", st.id)
+		// fresh: opened by a call that started after the last disconnect notification for the peer
+		ci, known := goCall[sim.GoID()]
+		fresh := known && callSeq[ci] > lastDisc[pi]
+		add("StreamOpen", "p", pi, "sid", st.id, "fresh", fresh)
 		mu.Unlock()
 		return fs, nil
 	}
@@ -194,9 +201,14 @@ func runSndInBubble(t *testing.T, sc *SndScenario, ch sim.Chooser) []sim.Ev {
 		ctx, cancel := context.WithCancel(context.Background())
 		calls[i].started, calls[i].cancel = true, cancel
 		mu.Lock()
+		seq++
+		callSeq[i] = seq
 		add("Call", "id", i+1, "p", c.Peer, "kind", c.Kind)
 		mu.Unlock()
 		go func() {
+			mu.Lock()
+			goCall[sim.GoID()] = i
+			mu.Unlock()
 			key := []byte(fmt.Sprintf("call-%d", i+1))
 			var resp *pb.Message
 			var err error
@@ -215,6 +227,7 @@ func runSndInBubble(t *testing.T, sc *SndScenario, ch sim.Chooser) []sim.Ev {
 			add("Return", "id", i+1, "ok", err == nil, "replyto", replyTo, "err", errS(err))
 		}()
 	}
+	ndisc := 0
 	type action struct {
 		name string
 		run  func()
@@ -295,10 +308,13 @@ func runSndInBubble(t *testing.T, sc *SndScenario, ch sim.Chooser) []sim.Ev {
 					}})
 				}
 			}
-			for p := 1; p <= sc.NPeers; p++ {
+			for p := 1; p <= sc.NPeers && ndisc < 2; p++ {
 				p := p
 				as = append(as, action{"disconnect", func() {
 					mu.Lock()
+					seq++
+					lastDisc[p] = seq
+					ndisc++
 					add("Disconnect", "p", p)
 					mu.Unlock()
 					ms.OnDisconnect(context.Background(), peers[p-1])
@@ -333,6 +349,10 @@ func runSndInBubble(t *testing.T, sc *SndScenario, ch sim.Chooser) []sim.Ev {
 		mu.Unlock()
 		if !open && gate.Len() == 0 {
 			break
+		}
+		if p := gate.Pending(); len(p) > 0 {
+			gate.Release(p[0], nil)
+			continue
 		}
 		as := enabled(true)
 		a := as[ch.Choose(len(as))]
@@ -392,89 +412,95 @@ func genSndScenario(r *rand.Rand) *SndScenario {
 	return sc
 }
 
-type sndJob struct {
-	Sc      *SndScenario `json:"sc"`
-	Tree    bool         `json:"tree"`
-	PerTree int          `json:"pertree"`
-	Seed    int64        `json:"seed"`
-}
-
 func TestSenderChild(t *testing.T) {
-	childMain(t, func(idx int, raw json.RawMessage) any {
-		var j sndJob
+	childMain(t, func(idx int, raw json.RawMessage, progress func(any)) any {
+		var j schedJob
+		var sc SndScenario
 		if err := json.Unmarshal(raw, &j); err != nil {
 			t.Fatal(err)
 		}
-		out := []modeResult{}
-		if j.Tree {
-			dfs := &sim.DFS{}
-			for k := 0; k < j.PerTree; k++ {
-				evs := runSnd(t, j.Sc, dfs)
-				out = append(out, modeResult{evs, dfs.Taken(), false})
-				if !dfs.Next() {
-					out[len(out)-1].Exhausted = true
-					break
-				}
-			}
-		} else {
-			ch := sim.NewRandomChooser(j.Seed)
-			out = append(out, modeResult{runSnd(t, j.Sc, ch), ch.Taken(), false})
+		if err := json.Unmarshal(j.Sc, &sc); err != nil {
+			t.Fatal(err)
 		}
-		return out
+		return runSchedJob(&j, progress, func(ch sim.Chooser) []sim.Ev { return runSnd(t, &sc, ch) })
 	})
+}
+
+func sndCrashRun(sc *SndScenario, output string, stalled bool) []sim.Ev {
+	what := "crashed: " + crashLine(output)
+	if stalled {
+		what = "no progress in real time: a goroutine of the sender is blocked where the runtime cannot see it as idle"
+	}
+	return []sim.Ev{{"e": "Reset", "npeers": sc.NPeers, "ncalls": len(sc.Calls), "ts": 0}, {"e": "Stuck", "what": what}, {"e": "End"}}
 }
 
 func TestSender(t *testing.T) {
 	e := getEnv(t)
 	rec := newRecorder(t, e, "sender", "one run per (calls, schedule of environment steps); small scenarios explored by DFS over the choice tree (bounded), random scenarios under seeded schedules; distinct by event sequence")
 	defer rec.Close(t, e)
+	jobs := []*schedJob{}
+	scs := []*SndScenario{}
+	addJob := func(sc *SndScenario, j *schedJob) {
+		j.Sc, _ = json.Marshal(sc)
+		jobs = append(jobs, j)
+		scs = append(scs, sc)
+	}
 	if e.Replay != "" {
 		var wrap struct {
 			Replay struct {
 				Scenario *SndScenario `json:"scenario"`
 				Choices  []int        `json:"choices"`
+				Seed     int64        `json:"seed"`
 			} `json:"replay"`
 		}
 		if err := readJSON(e.Replay, &wrap); err != nil {
 			t.Fatal(err)
 		}
-		ch := &sim.ReplayChooser{Seq: wrap.Replay.Choices}
-		rec.Record(runSnd(t, wrap.Replay.Scenario, ch), map[string]any{"scenario": wrap.Replay.Scenario, "choices": ch.Taken()}, true)
-		return
-	}
-	r := rand.New(rand.NewSource(e.Seed))
-	perTree, nrand := 400, 4000
-	if e.Tier == "thorough" {
-		perTree, nrand = 20000, 100000
-	}
-	if e.Budget > 0 {
-		nrand = e.Budget
-	}
-	jobs := []*sndJob{}
-	// two and three concurrent requests to one peer, few steps: whole choice tree (bounded)
-	for _, calls := range [][]SndCall{
-		{{1, "req"}, {1, "req"}},
-		{{1, "req"}, {1, "msg"}, {1, "req"}},
-		{{1, "req"}, {1, "req"}, {1, "req"}},
-	} {
-		for _, steps := range []int{4, 5, 6} {
-			jobs = append(jobs, &sndJob{Sc: &SndScenario{Seed: 11, NPeers: 1, Calls: calls, Steps: steps}, Tree: true, PerTree: perTree})
+		addJob(wrap.Replay.Scenario, &schedJob{Replay: true, Choices: wrap.Replay.Choices, Seed: wrap.Replay.Seed})
+	} else {
+		r := rand.New(rand.NewSource(e.Seed))
+		perTree, nrand := 1500, 15000
+		if e.Tier == "thorough" {
+			perTree, nrand = 20000, 100000
+		}
+		if e.Budget > 0 {
+			nrand = e.Budget
+		}
+		// two and three concurrent requests to one peer, few steps: whole choice tree (bounded)
+		for _, calls := range [][]SndCall{
+			{{1, "req"}, {1, "req"}},
+			{{1, "req"}, {1, "msg"}, {1, "req"}},
+			{{1, "req"}, {1, "req"}, {1, "req"}},
+		} {
+			for _, steps := range []int{4, 5, 6} {
+				addJob(&SndScenario{Seed: 11, NPeers: 1, Calls: calls, Steps: steps}, &schedJob{Tree: true, PerTree: perTree})
+			}
+		}
+		for i := 0; i < nrand; i++ {
+			addJob(genSndScenario(r), &schedJob{Seed: 1 + r.Int63()})
 		}
 	}
-	for i := 0; i < nrand; i++ {
-		jobs = append(jobs, &sndJob{Sc: genSndScenario(r), Seed: r.Int63()})
-	}
-	results := runChildren(t, e, "TestSenderChild", jobs, len(jobs), 12, nil)
+	crashed := map[int]map[string]any{}
+	var cmu sync.Mutex
+	results := runChildren(t, e, "TestSenderChild", jobs, len(jobs), 12, func(idx int, info json.RawMessage, output string, stalled bool) any {
+		cmu.Lock()
+		crashed[idx] = schedReplayOf(scs[idx], info)
+		cmu.Unlock()
+		return []schedResult{{Evs: sndCrashRun(scs[idx], output, stalled)}}
+	})
 	for i, raw := range results {
-		var out []modeResult
+		var out []schedResult
 		if raw == nil || json.Unmarshal(raw, &out) != nil {
-			rec.Problem(fmt.Sprintf("job %d produced no result", i))
+			rec.Count("skipped_after_stalls", 1)
 			continue
 		}
-		j := jobs[i]
 		for _, o := range out {
-			rec.Record(o.Evs, map[string]any{"scenario": j.Sc, "choices": o.Choices}, true)
-			if j.Tree {
+			rp := map[string]any{"scenario": scs[i], "choices": o.Choices}
+			if c := crashed[i]; c != nil {
+				rp = c
+			}
+			rec.Record(o.Evs, rp, true)
+			if jobs[i].Tree {
 				rec.Count("systematic", 1)
 				if o.Exhausted {
 					rec.Count("trees_exhausted", 1)
